@@ -39,6 +39,10 @@ pub fn operand_pool() -> &'static Vec<String> {
         for s in ["(0.0/0.0)", "(1.0/0.0)", "(-1.0/0.0)", "@"] {
             v.push(s.to_string());
         }
+        // fractions spelled as quotients (x^(1/3) is pow with the double 1/3, not a cube root)
+        for s in ["(1/3)", "(1/2)", "(2/3)", "(1/4)", "(-8)", "64", "27", "2.5"] {
+            v.push(s.to_string());
+        }
         v
     })
 }
